@@ -134,5 +134,29 @@ pub fn run(total: usize) -> Value {
         analyse("32-processes", kind, &procs, false, &mut failures, &mut tests);
         evaluations += seq.len() + thr.len() + procs.len();
     }
+    // every permitted byte count, not only the defaults: each byte POSITION of the token must vary over 64 draws
+    // (a position that is constant, e.g. a tail left at zero by a block-wise fill, has probability 256^-63 under a
+    // sound generator)
+    for (kind, lo, hi) in [("s", 1u32, 96u32), ("v", 32, 96)] {
+        for n in lo..=hi {
+            let vals: Vec<Vec<u8>> = (0..64)
+                .map(|_| {
+                    let s = if kind == "s" { CsrfToken::new_random_len(n).secret().clone() } else { PkceCodeChallenge::new_random_sha256_len(n).1.secret().clone() };
+                    BASE64_URL_SAFE_NO_PAD.decode(&s).unwrap_or_default()
+                })
+                .collect();
+            evaluations += vals.len();
+            tests += 1;
+            if vals.iter().any(|v| v.len() != n as usize) {
+                failures.push(json!({"signature": "C12:not-n-bytes", "mode": "all-lengths", "kind": kind, "detail": format!("n={n}")}));
+                continue;
+            }
+            if let Some(pos) = (0..n as usize).find(|p| vals.iter().all(|v| v[*p] == vals[0][*p])) {
+                failures.push(json!({"signature": "C12:constant-byte", "mode": "all-lengths", "kind": kind,
+                    "detail": format!("n={n}: byte {pos} has the same value {:#04x} in 64 of 64 draws", vals[0][pos])}));
+                break;
+            }
+        }
+    }
     json!({"evaluations": evaluations, "statistical_tests": tests, "sigma": SIGMA, "samples": samples, "failures": failures})
 }
